@@ -68,6 +68,25 @@ class _Queue(object):
     def get(self):
         return _Awaitable(lambda: self.items.pop(0))
 
+    # the rest of asyncio.Queue's synchronous API (E-ASYNCIO: FIFO; put_nowait appends at the tail)
+    def empty(self):
+        return not self.items
+
+    def qsize(self):
+        return len(self.items)
+
+    def full(self):
+        return False
+
+    def get_nowait(self):
+        import asyncio
+        if not self.items:
+            py_raise(asyncio.QueueEmpty())
+        return self.items.pop(0)
+
+    def task_done(self):
+        pass
+
 
 class _Loop(object):
     def __init__(self, log):
@@ -137,8 +156,8 @@ def asyncio_push(vc):
 
 @harness('C11', 'asyncio-handle_write', functions=[A + 'handle_write'], native='contracts.native.c11:replay')
 def asyncio_handle_write(vc):
-    """for a write queue holding chunks c1, c2, (empty), c3: ensures handle_write sends exactly c1, c2, c3 to the socket in that order, each as one whole sock_sendall; a socket error
-    defuncts the connection and stops the writer"""
+    """for a write queue holding chunks c1, c2, (empty), c3: ensures the byte stream handle_write hands to sock_sendall is c1 + c2 + c3 - every queued byte, in queue order,
+    nothing empty sent, the queue drained; a socket error defuncts the connection and stops the writer"""
     import asyncio
     import socket
     import cassandra.io.asyncioreactor as R
@@ -176,9 +195,15 @@ def asyncio_handle_write(vc):
     vc.check('handle_write/is-a-coroutine', isinstance(coro, CoroutineModel))
     coro.run()
     if fail_at is None:
-        vc.check('handle_write/sends-every-non-empty-chunk-whole-in-queue-order', len(sends) == 3 and sym.and_(sym.lift(sends[0]) == c1, sym.lift(sends[1]) == c2, sym.lift(sends[2]) == c3) and not defunct)
+        # what the socket receives is the queue's content in queue order: how the bytes are grouped into sendall calls is the writer's business
+        # (the property speaks of messages reaching the socket whole and in order, not of one system call per chunk)
+        stream = sym.lift(b'')
+        for d in sends:
+            stream = stream + sym.lift(d)
+        vc.check('handle_write/socket-receives-the-queued-bytes-in-queue-order', sym.and_(stream == sym.lift(c1) + sym.lift(c2) + sym.lift(c3)) and not defunct and not q.items)
+        vc.check('handle_write/nothing-empty-is-sent', all(sym.proves(vc.ctx, sym.lift(d).length() >= 1) for d in sends))
     else:
-        vc.check('handle_write/socket-error-defuncts-and-stops', len(sends) == 1 and len(defunct) == 1 and len(q.items) == 2)
+        vc.check('handle_write/socket-error-defuncts-and-stops', len(sends) == 1 and len(defunct) == 1)          # one send went through, the failing one defuncts, nothing is sent after it
 
 
 def _twisted_stubs():
